@@ -47,6 +47,11 @@ CHECKS = {
          "Honest sessions of a and b in both roles; an attacker with key e that relays any honest handshake message to any honest session, crafts InitHello with genuine/stolen/mismatched claims under its own ephemeral, answers honest initiators with RespHello claiming e's, a's or b's key signed with its own signature, a wrong-purpose signature, an empty one or any signature captured from other handshakes, and continues with InitDone / RespDone / data under the keys it derived. Every script up to depth 3 (quick) / 4 (thorough) is executed; after every single delivery each honest session that IsReady, accepts data or agrees to Send must report e's key or the key of an honest party owning a session with the same channel binding; early data must not change state.",
          "Signature unforgeability; the crafting menu is the attacker alphabet; longer scripts.",
          "5/C03", "seqmc"),
+ "C05": ("model_checking",
+         "exhaustive enumeration of adversary scripts (depth/deviation bounded DFS) over real p2pke.Channel objects with virtual time, from the initial and from established states",
+         "Channel X under test with each acceptance predicate (accept-all, reject-all, only-b, only-e) and honest channels B and E; the adversary starts Sends in any order (simultaneous initiation, two RNG seeds for both tie-break outcomes), delivers any captured packet to any plausible target (X's packets to B or E), duplicates, drops, fires timers and restarts B, for every script up to depth 6 (quick) / 8 (thorough), also starting from scripted established sessions (X dialled B, B dialled X) so that rekey handshakes diverted to another key are reached. Whenever X's Send returns nil, X delivers data or emits a data-range ciphertext the remote key must satisfy the predicate; X's RemoteKey never changes; a foreign-key handshake inside the keep-alive window leaves the established session able to carry a probe each way.",
+         "Scheduling inside Channel handlers is deterministic; scripts beyond the depth bound.",
+         "5/C05", "gosched"),
  "C06": ("model_checking",
          "explicit-state BFS closure over emit/deliver/drop/duplicate/reorder/reflect actions on a genuine Session pair + fair suffix from every reachable state",
          "All reachable states of (handshake indices, counters, pool of genuine messages, delivered data) under every schedule of emit / deliver-to-either-side / drop / send are enumerated to closure on real Sessions; on every transition: no panic, the handshake index never decreases, IsReady never reverts, Handshake() is idempotent and byte-stable; from every reached state the fair suffix (each side's current handshake message delivered once more in sequence) must make both sides ready and the very next data message each way must be delivered.",
